@@ -45,7 +45,7 @@ pub struct Case {
     pub family: &'static str,
 }
 
-fn format_sexp(f: &OutputFormat) -> String {
+pub(crate) fn format_sexp(f: &OutputFormat) -> String {
     match f {
         OutputFormat::Text => "text".to_owned(),
         OutputFormat::Json => "json".to_owned(),
@@ -53,11 +53,11 @@ fn format_sexp(f: &OutputFormat) -> String {
     }
 }
 
-fn format_tag(f: &OutputFormat) -> &'static str {
+pub(crate) fn format_tag(f: &OutputFormat) -> &'static str {
     match f { OutputFormat::Text => "text", OutputFormat::Json => "json", OutputFormat::CSV(_) => "csv" }
 }
 
-fn parse_err(e: &CommonParserError) -> String {
+pub(crate) fn parse_err(e: &CommonParserError) -> String {
     match e {
         CommonParserError::ParserError(e) => format!("p{}", parser_err_sexp(e)),
         CommonParserError::ConvertParserTreeError(e) => convert_err_sexp(e),
@@ -151,7 +151,7 @@ fn collect_reals(v: &Value, out: &mut BTreeSet<u64>) {
     }
 }
 
-fn collect_result(r: &Option<ResultRow>, reals: &mut BTreeSet<u64>, strings: &mut BTreeSet<String>) {
+pub(crate) fn collect_result(r: &Option<ResultRow>, reals: &mut BTreeSet<u64>, strings: &mut BTreeSet<String>) {
     if let Some(r) = r {
         for row in &r.data { for v in &row.columns { collect_reals(v, reals); crate::exprs::collect_value_strings(v, strings); } }
     }
@@ -187,6 +187,17 @@ fn discover_printed(c: &Case, reals: &mut BTreeSet<u64>, strings: &mut BTreeSet<
 
 /// every oracle table of the case, in the order the driver reads them (after `files` and `fs`)
 pub fn facts_sexp(c: &Case) -> String {
+    // the lines of every file
+    let mut all_lines: Vec<String> = Vec::new();
+    for f in &c.files { valid_lines(f, &mut all_lines); }
+    if let Some((_, Some(j))) = &c.joined { valid_lines(j, &mut all_lines); }
+    facts_sexp_with(&c.defs, &c.query, &all_lines, &|reals, strings| discover_printed(c, reals, strings))
+}
+
+/// the oracle tables for the two texts and the given line texts; `discover` finds the REALs / strings that get printed
+pub fn facts_sexp_with(defs: &str, query: &str, all_lines: &[String], discover: &dyn Fn(&mut BTreeSet<u64>, &mut BTreeSet<String>)) -> String {
+    struct Texts<'a> { defs: &'a str, query: &'a str }
+    let c = Texts { defs, query };
     let both = format!("{}\n{}", c.defs, c.query);
     let mut def_strings: Vec<String> = Vec::new();
     let mut query_strings: Vec<String> = Vec::new();
@@ -203,16 +214,12 @@ pub fn facts_sexp(c: &Case) -> String {
         if let Ok(re) = re { if def_strings.contains(s) && !patterns.iter().any(|p| &p.0 == s) { patterns.push((s.clone(), re)); } }
     }
     rx.push(')');
-    // the lines of every file
-    let mut all_lines: Vec<String> = Vec::new();
-    for f in &c.files { valid_lines(f, &mut all_lines); }
-    if let Some((_, Some(j))) = &c.joined { valid_lines(j, &mut all_lines); }
     let want_json = c.defs.contains('{');
     let want_f64 = c.defs.to_lowercase().contains("real");
     let mut texts: BTreeSet<String> = BTreeSet::new();   // everything a column value can be made of
     let ship_docs = crate::util::ship_facts(crate::util::SITE_E2E_DOC);
     let mut lines = String::from("(lines");
-    for l in &all_lines {
+    for l in all_lines {
         texts.insert(l.clone());
         lines.push_str(&format!(" (l {} (caps", hexs(l)));
         for (src, re) in &patterns {
@@ -267,7 +274,7 @@ pub fn facts_sexp(c: &Case) -> String {
     // … and what `upper` / `lower` make of them (a value computed by a function can reach a cast or `regexp_matches`)
     for s in strings.clone() { strings.insert(s.to_uppercase()); strings.insert(s.to_lowercase()); }
     for b in floats { collect_reals(&Value::Float(Float(f64::from_bits(b))), &mut reals); }
-    discover_printed(c, &mut reals, &mut strings);
+    discover(&mut reals, &mut strings);
     let eval_patterns: BTreeSet<String> = query_strings.iter().cloned().collect();
     let oracles = oracles_sexp(&strings, &eval_patterns);
     // the renderings of the REALs that may be printed
@@ -291,7 +298,7 @@ pub fn case_line(c: &Case) -> String {
 // generators
 // ---------------------------------------------------------------------------------------------
 
-fn gen_format(rng: &mut Rng, focus: &str) -> OutputFormat {
+pub(crate) fn gen_format(rng: &mut Rng, focus: &str) -> OutputFormat {
     let k = if focus == "print" { rng.below(3) } else { rng.below(5) };
     match k {
         1 => OutputFormat::Json,
@@ -351,7 +358,7 @@ fn relayout_text(rng: &mut Rng, text: &str) -> String {
 }
 
 /// the schema of `queries.rs` (tables t and u), a generated statement, generated input
-fn gen_schema_case(rng: &mut Rng, focus: &str, jpath: &str) -> Case {
+pub(crate) fn gen_schema_case(rng: &mut Rng, focus: &str, jpath: &str) -> Case {
     let sch = gen_schema(rng);
     let (agg, want): (Option<bool>, &str) = match focus {
         "select" => (Some(false), ""),
@@ -404,7 +411,7 @@ fn gen_schema_case(rng: &mut Rng, focus: &str, jpath: &str) -> Case {
 fn tpl_index(re: &str) -> Option<usize> { TEMPLATES.iter().position(|t| t.re == re) }
 
 /// a generated definition (every column kind, modifiers, JSON paths), lines made for it, a statement over c0..cn
-fn gen_def_case(rng: &mut Rng, focus: &str) -> Option<Case> {
+pub(crate) fn gen_def_case(rng: &mut Rng, focus: &str) -> Option<Case> {
     let share = *rng.pick(&[0u64, 0, 3, 10]);
     let g = gen_def(rng, share);
     let defs = g.render(rng);
@@ -427,7 +434,7 @@ fn gen_def_case(rng: &mut Rng, focus: &str) -> Option<Case> {
 }
 
 /// the seams: rejected texts, wrong statement kinds, unknown tables and columns, a missing joined file, unreadable lines
-fn gen_seam_case(rng: &mut Rng, focus: &str, jpath: &str) -> Case {
+pub(crate) fn gen_seam_case(rng: &mut Rng, focus: &str, jpath: &str) -> Case {
     let sch = gen_schema(rng);
     let nl = 1 + rng.below(6);
     let lines = gen_input(rng, nl, 10, false);
@@ -457,12 +464,12 @@ fn gen_seam_case(rng: &mut Rng, focus: &str, jpath: &str) -> Case {
     Case { defs, query, format: gen_format(rng, focus), single: rng.chance(1, 2), files, joined, family: "seam" }
 }
 
-fn result_kind(answer: &str) -> String {
+pub(crate) fn result_kind(answer: &str) -> String {
     let head = answer.split(' ').next().unwrap_or("");
     if head == "rejected" { answer.split(' ').take(3).collect::<Vec<_>>().join("-") } else { head.to_owned() }
 }
 
-fn shape(q: &str) -> String {
+pub(crate) fn shape(q: &str) -> String {
     let u = q.to_uppercase();
     let mut s = String::new();
     for (k, t) in &[("JOIN", "j"), ("GROUP BY", "g"), ("HAVING", "h"), ("DISTINCT", "d"), ("LIMIT", "l"), ("WHERE", "w")] {
@@ -516,7 +523,7 @@ impl Case {
 }
 
 /// the answer without the statistics counter (`Answer.output` of the model)
-fn without_total(answer: &str) -> String {
+pub(crate) fn without_total(answer: &str) -> String {
     answer.split(' ').filter(|t| !t.starts_with("total=")).collect::<Vec<_>>().join(" ")
 }
 
@@ -547,6 +554,20 @@ pub fn insert_at_line_boundaries(rng: &mut Rng, bytes: &[u8], lines: &[Vec<u8>])
         let pos = *rng.pick(&bounds);
         let mut ins = l.clone();
         ins.extend_from_slice(if rng.chance(1, 4) { b"\r\n" } else { b"\n" });
+        out.splice(pos..pos, ins);
+    }
+    out
+}
+
+/// the same with `\n` ends only (follow mode keeps a `\r` before the newline as content)
+pub fn insert_at_line_boundaries_lf(rng: &mut Rng, bytes: &[u8], lines: &[Vec<u8>]) -> Vec<u8> {
+    let mut out = bytes.to_vec();
+    for l in lines {
+        let mut bounds: Vec<usize> = vec![0];
+        for (i, b) in out.iter().enumerate() { if *b == b'\n' { bounds.push(i + 1); } }
+        let pos = *rng.pick(&bounds);
+        let mut ins = l.clone();
+        ins.push(b'\n');
         out.splice(pos..pos, ins);
     }
     out
@@ -699,6 +720,7 @@ pub fn run(p: &Params) -> Run {
     // the relations of Props/PipelineLines.lean on the implementation (also run by C06 / C12 / C15 with their own seeds)
     noise_relation(&mut run, &mut rng, p.n(40, 800), &crate::c06::spec_admitted, crate::c06::MAIN_NOISE, crate::c06::JOIN_NOISE);
     concat_relation(&mut run, &mut rng, p.n(60, 1200));
+    for focus in &["select", "group", "limit"] { crate::e2ef::stream(&mut run, &mut rng, p.n(80, 1500), focus); }
     perm_relation(&mut run, &mut rng, p.n(40, 800), crate::c04::C04_DEF, &crate::c15::query, &|rng: &mut Rng| crate::c04::gen_typed_input(rng, false));
     run
 }
